@@ -108,7 +108,8 @@ fn c16_ws_offreader(case: &Case) {
         }
     }
     let refill_pct = pick(&[0u32, 50, 100]);
-    case.sample(json!({"cap": cap, "middleware": with_mw, "refill_pct": refill_pct,
+    let out_cap = pick(&[1usize, 2, 256, 256]);
+    case.sample(json!({"cap": cap, "middleware": with_mw, "refill_pct": refill_pct, "outbound_capacity": out_cap,
         "first_wave": msgs.iter().map(|m| match m { Msg::Gated{tag, notify, path} => format!("{}{path}#{tag}", if *notify {"notify "} else {""}), Msg::Inline{tag} => format!("/echo#{tag}") }).collect::<Vec<_>>()}));
     let case = case.clone();
     aio::run(&case.clone(), 3_600, async move {
@@ -121,7 +122,7 @@ fn c16_ws_offreader(case: &Case) {
         let (s2, p2, o2) = (saturations.clone(), panics.clone(), other_errors.clone());
         let listener = WebSocketServer::listen("127.0.0.1:0").await.unwrap();
         let addr = listener.local_addr().unwrap();
-        let server = WebSocketServer::new(router).with_offreader_limit(cap).on_error(move |e: &ConnectionError| match e {
+        let server = WebSocketServer::new(router).with_offreader_limit(cap).with_outbound_capacity(out_cap).on_error(move |e: &ConnectionError| match e {
             ConnectionError::Saturation { .. } => {
                 s2.fetch_add(1, Ordering::SeqCst);
             }
@@ -275,37 +276,53 @@ fn c16_ws_offreader(case: &Case) {
         let mut n_panics = 0u64;
         let mut refills = 0;
         while !parked.is_empty() {
-            let i = simkernel::choose(parked.len() as u32) as usize;
-            let (t, notify) = parked.remove(i);
-            let how = match simkernel::choose(6) {
-                0 => Exit::Panic,
-                1 => Exit::Error,
-                _ => Exit::Return,
-            };
-            if how == Exit::Panic {
-                n_panics += 1;
+            // one handler exits, or (a third of the time) several exit in the same instant:
+            // their answers meet in the outbound queue
+            let burst = if parked.len() >= 2 && simkernel::choose(3) == 0 { range(2, (parked.len() as u32).min(6)) as usize } else { 1 };
+            let mut batch: Vec<(u64, bool, Exit)> = Vec::new();
+            for _ in 0..burst {
+                let i = simkernel::choose(parked.len() as u32) as usize;
+                let (t, notify) = parked.remove(i);
+                let how = match simkernel::choose(6) {
+                    0 => Exit::Panic,
+                    1 => Exit::Error,
+                    _ => Exit::Return,
+                };
+                if how == Exit::Panic {
+                    n_panics += 1;
+                }
+                exits.insert(t, how);
+                batch.push((t, notify, how));
             }
-            exits.insert(t, how);
-            gate.release(t, how);
-            let id = id_of[&t];
-            let done = if notify { wait_until(200, || gate.has_exited(t)).await } else { wait_until(200, || !inbox.responses_for(id).is_empty()).await };
-            if !done {
-                case.fail("no-response-after-release", format!("handler #{t} released ({how:?}) but {} after 200 ms", if notify { "it never exited" } else { "no response arrived" }));
-                gate.open_all();
-                return;
+            if burst > 1 {
+                case.probe("handlers_released_in_one_instant");
             }
-            sleep_ms(2).await;
-            if !notify {
-                let rs = inbox.responses_for(id);
-                let ok = rs.len() == 1
-                    && match how {
-                        Exit::Return => rs[0].ec == 0 && rs[0].body == serde_json::to_vec(&json!({"tag": t})).unwrap(),
-                        Exit::Error => rs[0].ec == ErrorCode::ApplicationErrorBase as u32 && rs[0].body == format!("gate-error-{t}").as_bytes(),
-                        Exit::Panic => rs[0].ec == ErrorCode::InternalError as u32,
-                    };
-                if !case.check(ok, "wrong-off-reader-response", || format!("handler #{t} exited by {how:?}; responses {:?}", rs.iter().map(|f| (f.id, f.ec, String::from_utf8_lossy(&f.body).to_string())).collect::<Vec<_>>())) {
+            for (t, _, how) in &batch {
+                gate.release(*t, *how);
+            }
+            let (mut t, mut how) = (batch[0].0, batch[0].2);
+            for (bt, notify, bhow) in batch.clone() {
+                (t, how) = (bt, bhow);
+                let id = id_of[&t];
+                let done = if notify { wait_until(200, || gate.has_exited(t)).await } else { wait_until(200, || !inbox.responses_for(id).is_empty()).await };
+                if !done {
+                    case.fail("no-response-after-release", format!("handler #{t} released ({how:?}, {burst} released together) but {} after 200 ms", if notify { "it never exited" } else { "no response arrived" }));
                     gate.open_all();
                     return;
+                }
+                sleep_ms(2).await;
+                if !notify {
+                    let rs = inbox.responses_for(id);
+                    let ok = rs.len() == 1
+                        && match how {
+                            Exit::Return => rs[0].ec == 0 && rs[0].body == serde_json::to_vec(&json!({"tag": t})).unwrap(),
+                            Exit::Error => rs[0].ec == ErrorCode::ApplicationErrorBase as u32 && rs[0].body == format!("gate-error-{t}").as_bytes(),
+                            Exit::Panic => rs[0].ec == ErrorCode::InternalError as u32,
+                        };
+                    if !case.check(ok, "wrong-off-reader-response", || format!("handler #{t} exited by {how:?}; responses {:?}", rs.iter().map(|f| (f.id, f.ec, String::from_utf8_lossy(&f.body).to_string())).collect::<Vec<_>>())) {
+                        gate.open_all();
+                        return;
+                    }
                 }
             }
             // one slot is free now: one more gated request must be admitted
